@@ -110,6 +110,11 @@ class Executor(EvalMixin, StmtMixin):
         m = module or self.module
         if name in STATIC_NAMES:
             return lift(STATIC_NAMES[name])
+        if module is None and self.owner is not None and getattr(self, 'class_scope', False) \
+                and name in self.owner.attrs:
+            # default-argument expressions are evaluated in the class body's scope
+            sub = Executor(self.world, self.path, m, m.name, self.owner, self.contract, parent=self)
+            return sub.ev(self.owner.attrs[name])
         if name in m.funcs:
             return VFunc(m.name + '.' + name, m.funcs[name], m)
         if name in m.classes:
@@ -247,6 +252,7 @@ class Executor(EvalMixin, StmtMixin):
         stdlib = {'Empty': ['Exception', 'BaseException'], 'Full': ['Exception', 'BaseException'],
                   'PicklingError': ['PickleError', 'Exception', 'BaseException'],
                   'error': ['OSError', 'Exception', 'BaseException'],
+                  'StructError': ['Exception', 'BaseException'],
                   'timeout': ['OSError', 'Exception', 'BaseException']}
         if name in stdlib:
             return stdlib[name]
@@ -445,6 +451,7 @@ class Executor(EvalMixin, StmtMixin):
                 sub.scopes[0][p] = kwargs.pop(p)
             elif defaults[i] is not None:
                 dsub = Executor(self.world, self.path, fn.module, fn.qualname, fn.owner, self.contract, parent=self)
+                dsub.class_scope = True
                 if fn.env is not None:
                     dsub.closure = fn.env
                 sub.scopes[0][p] = dsub.ev(defaults[i])
@@ -666,7 +673,10 @@ class Executor(EvalMixin, StmtMixin):
             return items.shape.select(items, coerce(self.path, i, IntS))
         if fname == 'fresh':    # fresh(obj): allocated during this call
             v = self.ev(node.args[0])
-            return SV(BoolS, v.id >= self.path.alloc0)
+            if isinstance(v, SOpt):
+                v = v.val
+            base = getattr(self, 'fresh_base', None)
+            return SV(BoolS, z3.And(v.id >= (base if base is not None else self.path.alloc0), v.id < self.path.alloc_now()))
         if fname == 'allocated':
             v = self.ev(node.args[0])
             return SV(BoolS, z3.And(v.id >= 0, v.id < self.path.alloc_now()))
